@@ -83,6 +83,80 @@ def decode {Sym : Type} (c : Cfg) (m : Model Sym) (x : Coder) : M (Sym × Coder)
             | [] => .ok (r.1, { x with state := st })
           else .ok (r.1, { x with state := st })
 
+
+/-! ## Statement-by-statement transcription that can express partial mutation
+
+`encode` above returns no coder at all on failure, so "a failed call leaves the coder intact"
+would be true by the shape of its type.  `encodeSymbolM` follows `encode_symbol` statement by
+statement and returns the coder exactly as the real code leaves it, also when it returns early
+with `?`; `Proofs/AnsAtomic.lean` proves that on every failure this coder is the original one
+(the model lookup and `bulk.write(..)?` precede every mutation of `state`) and that on success
+it is the result of `encode`.  The driver answers `enc` lines with this function. -/
+
+def encodeSymbolM {Sym : Type} (c : Cfg) (m : Model Sym) (s : Sym) (x : Coder) :
+    Coder × Except EncErr Unit :=
+  match m.enc s with
+  | none => (x, .error .impossible)                       -- `.ok_or_else(..)?`
+  | some (cum, p) =>
+    match shr "ans.enc.hi" c.S x.state (c.S - c.P) with
+    | .error f => (x, .error (.fault f))
+    | .ok hi =>
+      -- `if (state >> (S - P)) >= p { self.bulk.write(state as Word)?; self.state >>= W }`
+      let afterWrite : Coder × Except EncErr Unit :=
+        if hi ≥ p then
+          if canWrite x then ({ x with bulk := narrow c.W x.state :: x.bulk }, .ok ())
+          else (x, .error .backendFull)
+        else (x, .ok ())
+      match afterWrite.2 with
+      | .error e => (afterWrite.1, .error e)
+      | .ok () =>
+        let x1 := afterWrite.1
+        let x2 := if hi ≥ p then { x1 with state := x1.state >>> c.W } else x1
+        if p = 0 then (x2, .error (.fault (.panic "ans.enc.div0"))) else
+        let remainder := narrow c.B (narrow c.W (x2.state % p))
+        let pref := x2.state / p
+        match cadd "ans.enc.quantile" c.B cum remainder with
+        | .error f => (x2, .error (.fault f))
+        | .ok quantile =>
+          match shl "ans.enc.prefix" c.S pref c.P with
+          | .error f => (x2, .error (.fault f))
+          | .ok hiPart => ({ x2 with state := hiPart ||| quantile }, .ok ())
+
+/-! ## Batch forms (default methods of `Encode` / `Decode` and the `_reverse` helpers)
+
+The Rust default methods are literally `for … { self.encode_symbol(..)?; }` loops over an iterator
+whose items may be `Err` (fallible forms).  An item is `none` for an `Err` item. -/
+
+inductive BatchErr where
+  | coding (e : EncErr)
+  | model                       -- `TryCodingError::InvalidEntropyModel`
+  deriving Repr, DecidableEq
+
+/-- `encode_symbols` / `try_encode_symbols` / `encode_iid_symbols`: the coder is returned as the loop
+    leaves it when it stops at the first error -/
+def encodeSymbols {Sym : Type} (c : Cfg) : Coder → List (Option (Sym × Model Sym)) → Coder × Except BatchErr Unit
+  | x, [] => (x, .ok ())
+  | x, none :: _ => (x, .error .model)
+  | x, some (s, m) :: rest =>
+    match encodeSymbolM c m s x with
+    | (y, .ok ()) => encodeSymbols c y rest
+    | (y, .error e) => (y, .error (.coding e))
+
+/-- the `_reverse` forms iterate the same items back to front -/
+def encodeSymbolsReverse {Sym : Type} (c : Cfg) (x : Coder) (items : List (Option (Sym × Model Sym))) :
+    Coder × Except BatchErr Unit :=
+  encodeSymbols c x items.reverse
+
+/-- `decode_symbols` / `try_decode_symbols` / `decode_iid_symbols` collected into a list: symbols
+    decoded before the first `Err` item (`none`) or fault, the coder as left, and how it ended -/
+def decodeSymbols {Sym : Type} (c : Cfg) : Coder → List (Option (Model Sym)) → List Sym → Coder × List Sym × Except (Option Fault) Unit
+  | x, [], acc => (x, acc.reverse, .ok ())
+  | x, none :: _, acc => (x, acc.reverse, .error none)
+  | x, some m :: rest, acc =>
+    match decode c m x with
+    | .ok (s, y) => decodeSymbols c y rest (s :: acc)
+    | .error f => (x, acc.reverse, .error (some f))
+
 /-- the `while let Some(word)` loop of `read_initial_state` -/
 def readInitialLoop (c : Cfg) (state : Nat) : List Nat → Nat × List Nat
   | [] => (state, [])
